@@ -61,6 +61,12 @@ func MakeEncodingConfig(basics module.BasicManager) EncodingConfig {
 
 // Deterministic keys: never GenPrivKey().
 func SecpKey(name string) cryptotypes.PrivKey {
+	if name == "o3" {
+		// operator o3's label is chosen so that the operator addresses sort o2 < o1 < o3: the genesis
+		// operator o1 sits in the middle, and code that walks validators in store order (and might stop
+		// early) meets fresh operators both before and after it
+		name = "o3/sorts-last"
+	}
 	return secp256k1.GenPrivKeyFromSecret([]byte("verif/" + name))
 }
 func EdKey(name string) *ed25519.PrivKey {
